@@ -115,13 +115,32 @@ Definition compile (o : aop) : list op :=
   end.
 Definition compile_all (ops : list aop) : list op := flat_map compile ops.
 
-(* operations the constructor-level theorems cover, with constructor-built operands *)
+(* what Relation::new builds: no qualifier, no architecture list, no profiles *)
+Definition new_only (r : relrec) : bool :=
+  plain r && match rr_qual r with None => true | Some _ => false end.
+(* the operations the constructor-level theorems cover: operands are Entry::from(vec![Relation::new(..), ..]) *)
 Definition aop_plain (o : aop) : bool :=
   match o with
-  | APush e | AInsert _ e | AReplace _ e => plain_entry e && forallb (fun r => match rr_qual r with None => true | Some _ => false end) e
+  | APush e | AInsert _ e | AReplace _ e => forallb new_only e
   | ARemoveEntry _ | ARemoveRelation _ _ | ASetVersion _ _ _ | ADropConstraint _ _ | ASetArchqual _ _ _ => true
   | _ => false
   end.
+
+(* the text of a constructor-built field: "name[:qual][ (op ver)]" joined by " | " and ", " *)
+Definition vc_text (v : vcn) : str :=
+  match v with VGe => [62; 61] | VLe => [60; 61] | VEq => [61] | VGt => [62; 62] | VLt => [60; 60] end%N.
+Definition render_rel (r : relrec) : str :=
+  rr_name r ++
+  (match rr_qual r with Some q => 58%N :: q | None => [] end) ++
+  (match rr_ver r with Some (vc, ver) => [32; 40]%N ++ vc_text vc ++ [32%N] ++ ver ++ [41%N] | None => [] end).
+Fixpoint join_with (sep : str) (l : list str) : str :=
+  match l with
+  | [] => []
+  | [x] => x
+  | x :: r => x ++ sep ++ join_with sep r
+  end.
+Definition render_entry (e : list relrec) : str := join_with [32; 124; 32]%N (map render_rel e).
+Definition render_field (f : lfield) : str := join_with [44; 32]%N (map render_entry f).
 
 (* a machine state whose root register holds the (mutable) root of tree T, with the five
    registers the compiled programs use *)
